@@ -825,8 +825,9 @@ fn build_matcher_tree(
                     ));
                 }
 
-                let bracket = args[i - 1];
-                if bracket == "(" {
+                // Empty iff nothing was parsed since the opening parenthesis. (Comparing
+                // the previous argument with "(" would also reject `( -name "(" )`.)
+                if i == arg_index {
                     return Err(From::from(
                         "invalid expression; empty parentheses are not allowed.",
                     ));
